@@ -314,7 +314,9 @@ func SessionC15(t *tape.Tape) *core.RunResult {
 		}
 	}
 	// (2) where it ends by itself
-	if closed && !haltRequested && !hardFired && readerKeepsUp && len(got) > 0 {
+	// (also for a reader that lags: the newest report replaces an unread one, so the last report read
+	// after the natural end is the final iteration)
+	if closed && !haltRequested && !hardFired && len(got) > 0 {
 		last := got[len(got)-1]
 		md, isMate := last.Score.MateDistance()
 		mateStop := isMate && int(md) <= last.Depth
